@@ -6,4 +6,6 @@ def check(ctx, rep):
     rxr.rx_7_8(ctx, rep)
     from ..rules import rxr as _rx13
     _rx13.rx_13(ctx, rep)       # the lexical patterns are blind to the spelling of line breaks
+    from ..rules import eff as _eff1
+    _eff1.eff_1(ctx, rep, only=[('parso/python/tokenize.py', 'tokenize'), ('parso/python/tokenize.py', 'tokenize_lines')], minimum=5)     # nothing outlives a call: the result is a function of the arguments alone
     rep.note('Not decided: token-stream equality on all valid programs (layout logic: indent columns, bracket depth).')
